@@ -68,3 +68,9 @@ Example path_locks_example :
   laccepts 2 twin_sys [LAcq 0; LAcq 0; LEnter 0; LAcq 2; LEnter 2; LAcqD 0; LAcqD 2; LRelD 2; LRelD 0; LFin 0;
                        LAcq 1; LAcq 1; LFin 2; LEnter 1; LAcqD 1; LRelD 1; LFin 1] = (true, true).
 Proof. exact twin_example. Qed.
+
+(* the correspondence check evaluates the tabulated runner; it returns the verdict of [laccepts] *)
+Theorem tabulated_acceptance_is_acceptance :
+  forall n y tr, laccepts_fast n y tr = laccepts n y tr.
+Proof. exact laccepts_fast_eq. Qed.
+Print Assumptions tabulated_acceptance_is_acceptance.
